@@ -159,6 +159,11 @@ def tail_program(r):
         body = [f"    {cells.next()} = {p}" for p in ps] or [f"    {cells.next()} = {r.randint(100, 999)}"]
         if r.random() < 0.4:
             body.append(f"    {cells.next()} = {_dyn(r)}")
+        if r.random() < 0.6:
+            # register locals in the (possibly tail-called) function
+            body.append(f"    lx{k} = {_dyn(r)} * 2")
+            body.append(f"    ly{k} = lx{k} + {r.randint(1, 9)}")
+            body.append(f"    {cells.next()} = ly{k} - lx{k}")
         if funcs and r.random() < 0.85:
             g = funcs[-1] if r.random() < 0.7 else r.choice(funcs)
             args = ", ".join(_arg(r, ps) for _ in range(g[1]))
@@ -166,11 +171,26 @@ def tail_program(r):
         L.append(f"def tc{k}({', '.join(ps)}):")
         L += body
         funcs.append((f"tc{k}", npar))
+    if r.random() < 0.6:
+        # a wrapper that keeps a value live across an ordinary call into the chain
+        g = funcs[-1]
+        L.append("def wrap(w0):")
+        L.append(f"    keep = w0 * 3 + {r.randint(1, 9)}")
+        L.append(f"    {g[0]}({', '.join(_arg(r, ['w0']) for _ in range(g[1]))})")
+        L.append(f"    {cells.next()} = keep")
+        L.append(f"    {cells.next()} = w0")
+        funcs.append(("wrap", 1))
+        n += 1
     M = ["while True:", "    yield_()"]
+    keep_main = r.random() < 0.6
+    if keep_main:
+        M.append(f"    mk = {_dyn(r)} + 1")
     for k, (f, npar) in enumerate(funcs):
         reps = r.choice([0, 0, 1, 1, 2]) if k < n - 1 else r.choice([1, 2])
         for _ in range(reps):
             M.append(f"    {f}({', '.join(_arg(r, []) for _ in range(npar))})")
+    if keep_main:
+        M.append(f"    {cells.next()} = mk")
     return HEADER + "\n".join(L + M) + "\n"
 
 
@@ -178,7 +198,9 @@ def tail_program(r):
 def pressure_program(r, k=None, where=None):
     """k simultaneously live values, each read back after all have been assigned (and after calls / loops)."""
     k = k or r.randint(2, 18)
-    where = where or r.choice(["main", "main", "function", "loop", "across_call", "nested_loops", "long_expr"])
+    where = where or r.choice(["main", "main", "function", "loop", "across_call", "nested_loops", "long_expr", "dead_update", "dead_update"])
+    if where == "dead_update":
+        return dead_update_program(r, k)
     cells = _Cells(r)
     L = []
     if where == "long_expr":
@@ -215,6 +237,34 @@ def pressure_program(r, k=None, where=None):
     else:
         L += ["while True:", "    yield_()"] + [ind + b for b in body]
     return HEADER + "\n".join(L) + "\n", dict(k=k, where=where)
+
+
+def dead_update_program(r, k):
+    """function-local values that are written again after their last read (counters, accumulators that are no
+    longer used) while younger values are live: a lifetime that ends at the last read hands the register on"""
+    cells = _Cells(r)
+    k = max(2, min(k, 8))
+    B = []
+    olds = [f"c{j}" for j in range(k)]
+    for j, v in enumerate(olds):
+        B.append(f"{v} = {_dyn(r)} + {j}")
+    for v in olds:
+        B.append(f"{cells.next()} = {v}")
+    news = [f"n{j}" for j in range(k)]
+    for j, v in enumerate(news):
+        B.append(f"{v} = {_dyn(r)} * {j + 2}")
+        if r.random() < 0.7:
+            o = olds[j % len(olds)]
+            B.append(r.choice([f"{o} += 1", f"{o} = {o} * 2", f"{o} -= {news[j]}"]))
+    if r.random() < 0.5:
+        B.append(f"for q in range({r.randint(1, 3)}):")
+        B.append(f"    {olds[0]} += q")
+        B.append(f"    {cells.next()} = {news[0]} + q")
+    for v in news:
+        B.append(f"{cells.next()} = {v}")
+    L = ["def work(s0):"] + ["    " + b for b in B] + ["    return s0"]
+    L += ["while True:", "    yield_()", f"    {cells.next()} = work({_dyn(r)})", f"    {cells.next()} = work(2)"]
+    return HEADER + "\n".join(L) + "\n", dict(k=k, where="dead_update")
 
 
 # ------------------------------------------------------------------------------ layout mutations
